@@ -163,9 +163,28 @@ static int accept_cb(tp_task_p tptask, int error, uintptr_t skt_new, struct sock
 
 /* ---- plan executed on the owning thread */
 static unsigned g_mode;
+/* "connect and receive" (header comment of tp_task_connect_cb): the task is created by tp_task_connect_create(), its
+ * callback switches the handler to the send/receive one and starts the read with the scenario's own timeout */
+static unsigned g_via_connect;
+static int read_cb(tp_task_p tptask, int error, io_buf_p buf, uint32_t eof, size_t tr, void *udata);
+static int connect_cb(tp_task_p tptask, int error, void *udata) {
+	int rc;
+	(void)udata;
+	TM_LOG(EV_NOTE, 10, (uint64_t)(int64_t)error, 0, 0);
+	if (error) { __atomic_store_n(&g_stopped, 1, __ATOMIC_RELEASE); return TP_TASK_CB_NONE; }
+	tp_task_tp_cb_func_set(tptask, tp_task_sr_handler);
+	rc = tp_task_start_ex((int)g_sfio, tptask, TP_EV_READ, (uint16_t)g_event_flags, g_timeout_ms, 0, &g_iob, read_cb);
+	TM_LOG(EV_NOTE, 1, 0, 0, rc);
+	return TP_TASK_CB_NONE;
+}
 static void start_cb(tpt_p tpt, void *udata) {
 	int rc = 0;
 	(void)udata;
+	if (g_mode == 1 && g_via_connect) {
+		rc = tp_task_connect_create(tpt, (uintptr_t)g_sv[0], 0, 5000, connect_cb, NULL, &g_task);
+		if (rc) TM_LOG(EV_NOTE, 1, 0, 0, rc);
+		return;
+	}
 	/* g_owner was set by main before this message was sent (same value) */
 	if (g_mode == 1) {
 		rc = tp_task_create(tpt, (uintptr_t)g_sv[0], tp_task_sr_handler, g_task_flags, NULL, &g_task);
@@ -274,7 +293,7 @@ int main(void) {
 	seed = vin_u64(&in); g_mode = vin_u8(&in);
 	g_S = vin_u32(&in); g_win_o = vin_u32(&in); g_win_t = vin_u32(&in);
 	g_event_flags = vin_u8(&in); g_task_flags = vin_u8(&in); g_sfio = vin_u8(&in); g_timeout_ms = vin_u32(&in);
-	g_close_before_destroy = (g_task_flags & 0x80) != 0; g_task_flags &= 0x7f; /* bit 7 is a harness flag */
+	g_close_before_destroy = (g_task_flags & 0x80) != 0; g_via_connect = (g_task_flags & 0x40) != 0; g_task_flags &= 0x3f; /* bits 6, 7 are harness flags */
 	g_on_timeout = vin_u8(&in); g_on_eof_ret = vin_u8(&in); g_every_read_reset = vin_u8(&in); g_stop_after = vin_u32(&in);
 	g_close_mode = vin_u8(&in); quiesce_ms = vin_u32(&in); g_wait_done = vin_u8(&in); g_pause_after = vin_u32(&in); g_use_tcp = vin_u8(&in);
 	g_drain_chunk = vin_u32(&in); g_drain_gap_us = vin_u32(&in); g_drain_stop_after = vin_u32(&in); sndbuf = vin_u32(&in); nclients = vin_u16(&in);
